@@ -89,7 +89,18 @@ def check_C05(tier: str, v: Verdict):
         if rng.random() < 0.3:
             hi = min(int(np.iinfo(dt).max), 2**40)
             a = gen.relabel_random(rng, a, 1, min(hi, 10**6)) if hi > 300 else gen.relabel_random(rng, a, 1, hi)
-        recs.append(rec_approx(a, b, rng.choice(backends), dtype=dt, meta={"gen": "random"}))
+        g = "random"
+        if rng.random() < 0.25 and dt not in (np.uint8, np.int8):
+            # one side small labels, the other side labels that need a wider dtype and are
+            # congruent to small ones modulo 2^8 / 2^16
+            pool = [1, 2, 256, 257, 258, 512] + ([65536, 65537, 65538] if dt not in (np.int16, np.uint16) else [])
+            big = gen.rand_semantic(rng, shape, 3, rng.choice([0.6, 1.0]))
+            m = dict(zip([1, 2, 3], rng.sample(pool, 3)))
+            big = np.vectorize(lambda x: m.get(int(x), 0))(big)
+            small = gen.rand_semantic(rng, shape, 2, 0.6)
+            a, b = (small, big) if rng.random() < 0.7 else (big, small)
+            g = "mixed-magnitude"
+        recs.append(rec_approx(a, b, rng.choice(backends), dtype=dt, meta={"gen": g}))
     common_cov(v, recs, lambda r: (tuple(r["shape"]), tuple(r["spred"]), tuple(r["sref"]), r["backend"], r["meta"]["dtype"]),
                lambda r: any(r["spred"]) or any(r["sref"]))
     v.cov["rule"] = ("semantic maps: exhaustive tiny 1-D/2-D/3-D grids (each through default/cc3d/scipy) + seeded random maps with 1-3 "
